@@ -56,13 +56,14 @@ Definition orc_of (tbl : list orc_entry) (op : avop) (l r : pstr) : option bool 
   | None => None
   end.
 
-Inductive item := IPos (v : val) | IKw (k : pstr) (v : val) | IOrc (e : orc_entry).
+Inductive item := IPos (v : val) | IKw (k : pstr) (v : val) | IOrc (e : orc_entry) | ICont (s : pstr).
 
 Definition tok_item (t : pstr) : option item :=
   match split 58 t with
   | [[112]; v] => option_map IPos (tok_val v)
   | [[107]; k; v] =>
       match tok_str k, tok_val v with Some k, Some v => Some (IKw k v) | _, _ => None end
+  | [[99]; s] => option_map ICont (tok_str s)      (* c:<s> : s is a container word *)
   | [[111]; o; l; r; b] =>
       match tok_N o, tok_str l, tok_str r with
       | Some o, Some l, Some r =>
@@ -89,6 +90,9 @@ Definition keywords (l : list item) : list (pstr * val) :=
   flat_map (fun i => match i with IKw k v => [(k, v)] | _ => [] end) l.
 Definition oracle (l : list item) : list orc_entry :=
   flat_map (fun i => match i with IOrc e => [e] | _ => [] end) l.
+
+Definition cont_of (l : list item) (s : pstr) : bool :=
+  existsb (fun i => match i with ICont s' => pstr_eqb s s' | _ => false end) l.
 
 Definition out_res {A} (f : A -> pstr) (r : res A) : pstr :=
   match r with Ok a => s2p "ok:" ++ f a | Raise e => s2p "err:" ++ exn_name e end.
@@ -123,7 +127,7 @@ Definition config_cmd (cmd : pstr) (args : list pstr) : option pstr :=
     | c :: rest =>
         match tok_str c, map_opt' tok_item rest with
         | Some c, Some items =>
-            Some match construct (orc_of (oracle items)) classes c (positional items) (keywords items) with
+            Some match construct (orc_of (oracle items)) (cont_of items) classes c (positional items) (keywords items) with
                  | Ok h => sp (s2p "ok" :: map (fun path => out_opt h (look h path)) observed_paths)
                  | Raise e => sp [s2p "err"; exn_name e]
                  end
@@ -137,14 +141,15 @@ Definition config_cmd (cmd : pstr) (args : list pstr) : option pstr :=
         match tok_val v, map_opt' tok_item rest with
         | Some v, Some items =>
             let orc := orc_of (oracle items) in
-            let safe := safe_is_version orc v in
-            Some (sp [ out_res out_str (is_version orc v);
+            let cont := cont_of items in
+            let safe := safe_is_version orc cont v in
+            Some (sp [ out_res out_str (is_version orc cont v);
                        out_res out_str safe;
-                       out_res out_str (gateway_const orc v);
+                       out_res out_str (gateway_const orc cont v);
                        out_res out_str (get_const orc (py_str v));
                        out_res out_bool (do s <- safe; wants_presentation orc s);
-                       out_res (out_val []) (sensor_set_version orc v);
-                       out_res out_str (node_const orc v) ])
+                       out_res (out_val []) (sensor_set_version orc cont v);
+                       out_res out_str (node_const orc cont v) ])
         | _, _ => Some bad
         end
     | [] => Some bad
@@ -160,7 +165,7 @@ Definition config_cmd (cmd : pstr) (args : list pstr) : option pstr :=
     match tok_case args with
     | Some (c, kw, ch) =>
         if Nat.eqb (List.length ch) (List.length (documented c))
-        then Some (out_bool (check_case no_orc c kw ch)) else Some bad
+        then Some (out_bool (check_case no_orc (fun _ => false) c kw ch)) else Some bad
     | None => Some bad
     end
   else if pstr_eqb cmd (s2p "floor") then
